@@ -558,7 +558,13 @@ class Analyzer:
         return self.container(env, [x for x in list(n.keys) + list(n.values) if x is not None])
 
     def ev_BinOp(self, env, n):
-        _, e = self.evs(env, [n.left, n.right])
+        av, e = self.evs(env, [n.left, n.right])
+        if isinstance(n.op, (ast.Add, ast.Mult)):
+            # `[f] * k`, `[f] + [g]`, `(f,) + t`: a NEW container that holds the same callables (data elements of an arithmetic result are
+            # fresh values and are not followed) - without this a default table of functions built by list arithmetic loses its callables
+            # and the callee's effects with them (harmless rewrite C20-g2: `[labels_to_colors_hls] * (n_meta + 1)`)
+            held = frozenset(t for t in av[1] if t[0] in ('F', 'L'))
+            return (frozenset(), held), e
         return BOT, e
 
     def ev_UnaryOp(self, env, n):
